@@ -98,7 +98,23 @@ func (e *Env) fail(sig, what string, replay interface{}) {
 	}
 }
 
+// inflight notes what the harness is about to run; if the process dies in the middle (a panic in a
+// library goroutine takes the whole process down) the driver reports this as the failing input.
+func (e *Env) inflight(desc interface{}) {
+	b, _ := json.Marshal(desc)
+	os.WriteFile(filepath.Join(e.Work, "in_flight.json"), b, 0644)
+}
+
 func (e *Env) finish() {
+	if r := recover(); r != nil {
+		e.writeResult()
+		panic(r)
+	}
+	os.Remove(filepath.Join(e.Work, "in_flight.json"))
+	e.writeResult()
+}
+
+func (e *Env) writeResult() {
 	e.Res.WallS = time.Since(e.start).Seconds()
 	b, _ := json.MarshalIndent(e.Res, "", " ")
 	if err := os.WriteFile(filepath.Join(e.Work, "result.json"), b, 0644); err != nil {
